@@ -446,6 +446,55 @@ static inline _Bool i_hdr(const CL *L) { return (L->head == NULL) == (L->tail ==
 #define CONTRACT_CL_forEach__UserEach__lambda0_call INVOKE_CONTRACT
 #define CONTRACT_CL_forEachIf__UserEachIf__lambda0_call INVOKE_CONTRACT
 #define CONTRACT_CL_forEachIf__call__lambda0__lambda0_call INVOKE_CONTRACT
+#else
+/* thin form (-DOB_THIN), C01 "passes every callback the invocation's arguments" / "forEach, forEachIf ... describe that
+ * same content": what the boundary lambdas do with the node they are given.  Call log of the user-code stubs: */
+extern int g_cbk_n; extern Callback *g_cbk_f; extern int g_cbk_arg; extern Node *g_cbk_h;
+extern int g_cci_n, g_cci_arg; extern _Bool g_cci_ret, g_vis_ret;
+#define THIN_LOG g_cbk_n, g_cbk_f, g_cbk_arg, g_cbk_h, g_cci_n, g_cci_arg, g_cci_ret, g_vis_ret
+#define B01(b) ((b) == 0 || (b) == 1)
+#define THIN_PRE (g_cbk_n >= 0 && g_cbk_n < 1000 && g_cci_n >= 0 && g_cci_n < 1000)
+/* a callback gets its OWN copy of the arguments (by-value prototype) and may do with it what it likes */
+#define CONTRACT_Callback_call \
+  __CPROVER_assigns(a0->id, THIN_LOG) \
+  __CPROVER_ensures(g_cbk_n == __CPROVER_old(g_cbk_n) + 1 && g_cbk_f == f && g_cbk_arg == __CPROVER_old(a0->id) && g_cci_n == __CPROVER_old(g_cci_n))
+#define CONTRACT_canContinueInvoking \
+  __CPROVER_assigns(g_cci_n, g_cci_arg, g_cci_ret) \
+  __CPROVER_ensures(g_cci_n == __CPROVER_old(g_cci_n) + 1 && g_cci_arg == a0.id && B01(g_cci_ret) && __CPROVER_return_value == g_cci_ret)
+#define CONTRACT_UserEach_call \
+  __CPROVER_assigns(THIN_LOG) \
+  __CPROVER_ensures(g_cbk_n == __CPROVER_old(g_cbk_n) + 1 && g_cbk_f == a1 && g_cbk_h == a0->p)
+#define CONTRACT_UserEachIf_call \
+  __CPROVER_assigns(THIN_LOG) \
+  __CPROVER_ensures(g_cbk_n == __CPROVER_old(g_cbk_n) + 1 && g_cbk_f == a0 && B01(g_vis_ret) && __CPROVER_return_value == g_vis_ret)
+/* operator(): the callback is called once with the invocation's argument VALUES, then the canContinueInvoking policy
+ * with the same values; the invocation's own argument objects are left untouched for the callbacks that follow */
+#define CONTRACT_CL_call__lambda0_call \
+  __CPROVER_requires(__CPROVER_is_fresh(__c, sizeof(*__c)) && __CPROVER_is_fresh(__c->cap_args, sizeof(VArg)) && __CPROVER_is_fresh(callback, sizeof(Callback)) && THIN_PRE) \
+  __CPROVER_assigns(THIN_LOG) \
+  __CPROVER_ensures(g_cbk_n == __CPROVER_old(g_cbk_n) + 1 && g_cbk_f == callback && g_cbk_arg == __CPROVER_old(__c->cap_args->id)) \
+  __CPROVER_ensures(g_cci_n == __CPROVER_old(g_cci_n) + 1 && g_cci_arg == __CPROVER_old(__c->cap_args->id) && __CPROVER_return_value == g_cci_ret) \
+  __CPROVER_ensures(__c->cap_args->id == __CPROVER_old(__c->cap_args->id))
+#define THIN_NODE_PRE(F) (__CPROVER_is_fresh(F, sizeof(*(F))) && __CPROVER_is_fresh(node, sizeof(Node *)) && __CPROVER_is_fresh(*node, sizeof(Node)) && THIN_PRE)
+#define CONTRACT_CL_doForEachInvoke___Bool_call__lambda0 \
+  __CPROVER_requires(THIN_NODE_PRE(func) && __CPROVER_is_fresh(func->cap_args, sizeof(VArg))) \
+  __CPROVER_assigns(THIN_LOG) \
+  __CPROVER_ensures(g_cbk_n == __CPROVER_old(g_cbk_n) + 1 && g_cbk_f == &(*node)->callback && g_cbk_arg == __CPROVER_old(func->cap_args->id)) \
+  __CPROVER_ensures(g_cci_n == __CPROVER_old(g_cci_n) + 1 && __CPROVER_return_value == g_cci_ret && func->cap_args->id == __CPROVER_old(func->cap_args->id))
+#define CONTRACT_CL_forEachIf__call__lambda0__lambda0_call \
+  __CPROVER_requires(THIN_NODE_PRE(__c) && __CPROVER_is_fresh(__c->cap_func, sizeof(*__c->cap_func)) && __CPROVER_is_fresh(__c->cap_func->cap_args, sizeof(VArg))) \
+  __CPROVER_assigns(THIN_LOG) \
+  __CPROVER_ensures(g_cbk_n == __CPROVER_old(g_cbk_n) + 1 && g_cbk_f == &(*node)->callback && g_cbk_arg == __CPROVER_old(__c->cap_func->cap_args->id)) \
+  __CPROVER_ensures(g_cci_n == __CPROVER_old(g_cci_n) + 1 && __CPROVER_return_value == g_cci_ret)      /* false stops the invocation (C12: canContinueInvoking) */
+/* forEach / forEachIf: the visitor sees the node's handle and ITS callback, once; forEachIf returns the visitor's verdict */
+#define CONTRACT_CL_forEach__UserEach__lambda0_call \
+  __CPROVER_requires(THIN_NODE_PRE(__c) && __CPROVER_is_fresh(__c->cap_func, sizeof(UserEach))) \
+  __CPROVER_assigns(THIN_LOG) \
+  __CPROVER_ensures(g_cbk_n == __CPROVER_old(g_cbk_n) + 1 && g_cbk_f == &(*node)->callback && g_cbk_h == *node && __CPROVER_return_value)
+#define CONTRACT_CL_forEachIf__UserEachIf__lambda0_call \
+  __CPROVER_requires(THIN_NODE_PRE(__c) && __CPROVER_is_fresh(__c->cap_func, sizeof(UserEachIf))) \
+  __CPROVER_assigns(THIN_LOG) \
+  __CPROVER_ensures(g_cbk_n == __CPROVER_old(g_cbk_n) + 1 && g_cbk_f == &(*node)->callback && __CPROVER_return_value == g_vis_ret)
 #endif
 #define CONTRACT_CL_doForEachIf__forEach__UserEach__lambda0__loop0 TRV_BODY_CONTRACT
 #define CONTRACT_CL_doForEachIf__forEachIf__UserEachIf__lambda0__loop0 TRV_BODY_CONTRACT
